@@ -41,6 +41,13 @@ def initOK (s : SupSpec) : Bool :=
   let mapped := s.maps.map (·.1)
   decide (mapped.Nodup) && (List.range s.sup.sel.length).all (mapped.contains ·)
 
+/-- `add_mapping`: an existence mapping may only mention nodes of the (initialised) source graph
+    (`srcNodes`); a mapping that mentions another node is rejected at registration. -/
+def mapsWF (s : SupSpec) (srcNodes : List Node) : Bool :=
+  s.maps.all (fun m => match m.2 with
+    | .opt _ => true
+    | .exist e => e.entries.all (fun p => srcNodes.contains p.1))
+
 /-- The assignment of the supplementary graph determined by the mappings (`none` where a mapping has no
     entry for the source situation). -/
 def supAssign (s : SupSpec) (X : List Node) (r : List (Option Nat)) : Assign :=
